@@ -47,6 +47,10 @@ func (o mpOp) String() string {
 		return fmt.Sprintf("abort u%d via key %s", o.u, o.k)
 	case "put":
 		return fmt.Sprintf("put %s %q", o.k, o.body)
+	case "part-badid", "abort-badid":
+		return fmt.Sprintf("%s %s ?%s", o.kind, o.k, o.desc)
+	case "initiate-nokey":
+		return "initiate without a key"
 	}
 	return o.kind
 }
@@ -237,6 +241,7 @@ func (s *mpSys) Ops() []engine.Op {
 			ops = append(ops, mpOp{kind: "initiate", k: k})
 		}
 		ops = append(ops, mpOp{kind: "initiate", k: s.u.keys[0], meta: true})
+		ops = append(ops, mpOp{kind: "initiate-nokey"})
 		if s.m.Objects[s.u.keys[0]] != nil && len(s.m.Uploads) == 0 {
 			// over an existing object that has a value for the header (plain puts send one)
 			ops = append(ops, mpOp{kind: "initiate", k: s.u.keys[0], emptyMeta: true})
@@ -283,6 +288,17 @@ func (s *mpSys) Ops() []engine.Op {
 	}
 	for _, k := range s.u.keys {
 		ops = append(ops, mpOp{kind: "put", k: k, body: "P"})
+	}
+	// multipart requests whose upload id names no upload: empty, or in a pair the
+	// query parser cannot read (a bad escape, a raw ';'), or given twice
+	if s.m.Objects[s.u.keys[0]] != nil {
+		live := "1"
+		if len(s.m.Uploads) > 0 {
+			live = s.m.Uploads[0].ID
+		}
+		for _, q := range []string{"uploadId=", "uploadId=%zz", "uploadId=" + live + ";x=1", "uploadId=&uploadId=" + live} {
+			ops = append(ops, mpOp{kind: "part-badid", k: s.u.keys[0], desc: q}, mpOp{kind: "abort-badid", k: s.u.keys[0], desc: q})
+		}
 	}
 	return ops
 }
@@ -339,6 +355,25 @@ func (s *mpSys) apply(op engine.Op) (string, *engine.Violation) {
 		s.inits++
 		s.searchInits++
 		s.m.Initiate(id, o.k, meta)
+		return "200", nil
+	case "initiate-nokey":
+		// POST /bucket?uploads: an upload needs the key of the object it will become
+		r := s.w.Do(drv.Req{Method: "POST", Path: "/" + s.bucket, Query: "uploads"})
+		if r.Panic == "" && r.Status >= 400 && r.Status < 500 {
+			return respSig(r), nil
+		}
+		id := ""
+		if n := r.XML(); n != nil {
+			id = n.T("UploadId")
+		}
+		if s.prop == "C06" || r.Status != 200 || id == "" {
+			return bad("status", "-", r, "a client error", "(an upload without a key was accepted: it can only become an object that no request can name)")
+		}
+		// C14: the listing has to cope with what the server accepted
+		s.allIDs[id] = true
+		s.inits++
+		s.searchInits++
+		s.m.Initiate(id, "", nil)
 		return "200", nil
 	case "part":
 		u := s.m.Uploads[o.u]
@@ -420,6 +455,26 @@ func (s *mpSys) apply(op engine.Op) (string, *engine.Violation) {
 			return bad("status", "-", r, expSig(e), "")
 		}
 		return respSig(r), nil
+	case "part-badid", "abort-badid":
+		var r drv.Resp
+		if o.kind == "part-badid" {
+			r = s.w.Do(drv.Req{Method: "PUT", Path: "/" + s.bucket + "/" + o.k, Query: "partNumber=1&" + o.desc, Body: []byte("stray part")})
+		} else {
+			r = s.w.Do(drv.Req{Method: "DELETE", Path: "/" + s.bucket + "/" + o.k, Query: o.desc})
+		}
+		cond := "empty-id"
+		switch {
+		case strings.Contains(o.desc, "%zz"):
+			cond = "bad-escape"
+		case strings.Contains(o.desc, ";"):
+			cond = "raw-semicolon"
+		case strings.Contains(o.desc, "&"):
+			cond = "id-given-twice"
+		}
+		if r.Panic != "" || r.Status < 400 {
+			return bad("status", cond, r, "an error status", "(the request names an upload that does not exist; it is not a request on the object)")
+		}
+		return respSig(r), nil // object and uploads must be as they were: Check compares them with the unchanged model
 	case "put":
 		r := s.w.Do(drv.Req{Method: "PUT", Path: "/" + s.bucket + "/" + o.k, Body: []byte(o.body), Header: drv.H(mpMetaKey, "plain")})
 		if r.Status != 200 || r.Panic != "" {
